@@ -251,14 +251,16 @@ CHECKS["C04"] = {
             "(deleted, added) reports), vertices = evaluated points, loss() = max, corners first, queue in SortedKeyList order, "
             "queue complete and sound (every live key has an entry; every entry of a current simplex carries the current "
             "(sub)loss = vol(sub)/vol(simplex)*loss), pop returns a live entry of maximal priority, with nothing pending ask "
-            "refines a simplex of maximal loss and reports that loss. lnd_ask_fresh (returned points distinct and unknown) is "
-            "_partial (corner prefix only). Tie: real LearnerND in bit-exact lock-step (2-D/3-D, rect/ConvexHull, 3 losses, "
+            "refines a simplex of maximal loss and reports that loss. lnd_ask_fresh (points distinct, not evaluated, not pending) "
+            "is proved under the state-level hypothesis ChooseFresh (violated by the real code: known finding); the unconditional "
+            "lnd_ask_fresh_statement stays a stated Prop. Tie: real LearnerND in bit-exact lock-step (2-D/3-D, rect/ConvexHull, 3 losses, "
             "scalar/vector, runner-like interleavings, non-committing asks, discards). Search: the clauses of C04 on the real "
             "learner after every op with exact rational geometry.",
     "design_ref": "DESIGN.md section 6 C04",
     "note": "Trusted: Lean kernel, standard axioms, hand model LND.lean tied by differential testing, the monkeypatch recorder, "
             "CPython round(x,8) reproduced from bit patterns. Hypotheses: truthful combinatorics of the (sub)triangulations "
-            "(C03), ghost geomOK for completeness; remove_unfinished covered since fix e79ba45. Known findings: pending point on "
+            "(C03), ChooseGeom (truthful choose / point_in_simplex / sub-triangulation insert) for completeness, the former ghost flag is now a "
+            "theorem (lnd_chosen_subdivided, lnd_ghost_true); remove_unfinished covered since fix e79ba45. Known findings: pending point on "
             "a hull face re-proposed (ValueError), degenerate triangulation for 1e6-aspect boxes.",
     "technique": T,
 }
